@@ -58,7 +58,9 @@ def flatten_params(params) -> Params:
         return p
     if isinstance(params, dict):
         return Params(named=dict(params))
-    from vc.pyvc.values import SRec
+    from vc.pyvc.values import SRec, SOptRec
+    if isinstance(params, SOptRec):
+        params = params.rec      # executing with None would raise; the call is guarded by the program
     if isinstance(params, SRec):
         p = Params(named={})
         p.rec = params
@@ -105,6 +107,10 @@ def sql_parts(sql):
     raise Unsupported(f'SQL text of type {type(sql).__name__} (not determined by the argument shape)')
 
 
+def _loops(it):
+    return [getattr(f, 'loop_node', None) for f in it.ctx.generic if f.binders]
+
+
 class NamedParams(Params):
     pass
 
@@ -148,7 +154,7 @@ class ConnObj(SObj):
     def _event(self, it, kind, node, sql=None, extra=None):
         it.ctx.effects.append(Event(kind, sql=sql, obj=self.conn, guard=it.ctx.current_guard(),
                                     binders=list(it.ctx.all_binders()), node=node, extra=extra or {},
-                                    pc_len=len(it.ctx.pc)))
+                                    pc_len=len(it.ctx.pc), loops=_loops(it)))
         return None
 
     # context manager: `with conn:` = transaction scope (A-TXN)
@@ -172,7 +178,7 @@ class ConnObj(SObj):
                    guard=it.ctx.current_guard(), binders=list(it.ctx.all_binders()), node=node,
                    extra={'stmt': stmt, 'nparam': nparam, 'preds': list(it.ctx.preds),
                           'fn': it.fn_stack[-1].qualname if it.fn_stack else ''},
-                   pc_len=len(it.ctx.pc))
+                   pc_len=len(it.ctx.pc), loops=_loops(it))
         it.ctx.effects.append(ev)
         self.world.statements.append(ev)
         if isinstance(stmt, (P.Select, P.WithStmt)):
